@@ -1,4 +1,32 @@
 reg("C14", "non-conditional simulations follow their model; basic generators have the moments of their laws",
-    parts=[dict(harness="c14_simstat", cases=dict(quick=64, thorough=192), timeout_case=600)],
-    rule="placeholder",
-    require=dict(distinct=20))
+    parts=[dict(harness="c14_simstat", cases=dict(quick=64, thorough=160), timeout_case=3600)],
+    rule="STATISTICAL NON-REFUTATION, false-alarm probability < 1e-9 per run. Cases are stratified on the case index (16 slots): "
+         "5 turning bands on a 16x16 (thorough 20x20) grid [1-2 nested structures of {spherical, exponential, gaussian, cubic, "
+         "matern, stable, sincard, besselj} + optional nugget, anisotropy ratio ~0.25-0.3 rotated along a grid direction "
+         "(1,0),(0,1),(1,+-1),(2,+-1),(1,+-2), sill in [0.03,0.2] or [8,50], non-zero mean, 1-2 variables with cross-correlation "
+         "+-0.7..0.95 of opposite signs in nested structures, nbtuba 100/200], 2 turning bands on scattered points (1-D, 2-D, 3-D), "
+         "2 simfft (isotropic short range on a square grid; anisotropic; non-square grid), 1 simuSpectral (unit sill / sill != 1), "
+         "1 Cholesky (MatrixSquareSymmetricSim dense inverse=false/true, sparse; CholeskyDense/CholeskySparse::evalSimulate with "
+         "VH::simulateGaussian white noise), 1 simulateSPDE (Matern nu=1 on a 12x12 grid), 4 basic laws (uniform, gaussian, "
+         "exponential, gamma, poisson, beta1, beta2, binomial, int_uniform, gaussian_between_bounds). R realisations (turning bands "
+         "1200 / thorough 6000, FFT 800/4000, spectral 1200/6000, Cholesky 1500/8000, SPDE 400/2000), seeds of the batches drawn "
+         "from the case PRNG. Statistics: ensemble mean per variable; variance; (cross-)covariances averaged over all grid pairs at "
+         "lags 1x and 2x the major-axis vector, 1x and 2x the perpendicular vector, one other lag (points: pairs grouped by model "
+         "correlation class). bound = z*SD*(kappa + z/sqrt(2R)) + allowance*sqrt(Cii(0)Cjj(0)); SD from the MODEL (Isserlis double sum "
+         "over the pairs), z = 8.2 = sqrt(2 ln(2*2e5/1e-9)) (Bonferroni over up to 2e5 statistics), kappa = 1 for variances (PSD "
+         "quadratic form) and sqrt(2) otherwise, z/sqrt(2R) = exact sub-exponential tail correction (Laurent-Massart). "
+         "method_allowance (fraction of the sill, calibrated on the unchanged tree): turning bands 0.03, FFT 0.08 (range <= 0.17 grid "
+         "size, square grid, isotropic), spectral 0.03, Cholesky 0, SPDE 0.08; on means 0.01/0.01/0.01/0/0.02 of the standard "
+         "deviation. Covariance statistics are skipped (counted) when a mean statistic of the same case fails. Laws: N = 2e5 "
+         "(thorough 2e6) draws, raw moments 1-4 with bound z*sqrt((mu_2k-mu_k^2)/N) + 2 q^k x/(3N) (Bernstein, q = 1e-20 quantile), "
+         "support, and reach of the range (an extreme quantile that a sample of the law passes with probability 1-1e-12). "
+         "distinct = distinct (simulator, support, variables, structure, anisotropy, direction, sill class, ...) signatures",
+    level="exploration",
+    require=dict(distinct=30,
+                 oracles=dict(quick={"variance": 25, "covariance": 120, "mean": 30, "moment1": 10, "support": 10},
+                              thorough={"variance": 60, "covariance": 300, "mean": 80, "moment1": 25, "support": 25})),
+    assumptions=["Model::eval (pointwise covariance, including anisotropy and sill matrices) is the reference for the expected "
+                 "statistics: C14 compares simulations with the model's own covariance function (C01/C03 cover that function)",
+                 "fourth moments of the simulated fields are those of a Gaussian field (the turning-bands / spectral fields are sums of "
+                 "many independent components); the method allowance also absorbs that approximation",
+                 "statistical verdict: deviations smaller than the bound are invisible"])
